@@ -470,3 +470,112 @@ func (p *Prog) iterationSkips(f *Func, rs *ast.RangeStmt, mustDo func(n ast.Node
 	})
 	return escapes
 }
+
+// isFreshValue: make(T), make(T, 0), nil or an empty composite literal.
+func (p *Prog) isFreshValue(e ast.Expr) bool {
+	switch x := unparen(e).(type) {
+	case *ast.CallExpr:
+		if p.CalleeName(x) != "builtin.make" {
+			return false
+		}
+		if len(x.Args) == 1 {
+			return true
+		}
+		if len(x.Args) == 2 {
+			c, _ := p.ConstVal(x.Args[1])
+			return c == "0"
+		}
+	case *ast.CompositeLit:
+		return len(x.Elts) == 0
+	case *ast.Ident:
+		return p.isNilExpr(x)
+	}
+	return false
+}
+
+// resetNode: n sets Struct.field to a fresh empty value, directly or by calling
+// a function of the analysed packages all of whose normal paths do (helpers
+// are followed to the given depth, so extracting the resets into a helper does
+// not change the verdict).
+func (p *Prog) resetNode(n ast.Node, fld string, depth int) bool {
+	if as, ok := n.(*ast.AssignStmt); ok && len(as.Lhs) == len(as.Rhs) {
+		for i, l := range as.Lhs {
+			if p.IsField(l, fld) && p.isFreshValue(as.Rhs[i]) {
+				return true
+			}
+		}
+	}
+	if depth <= 0 {
+		return false
+	}
+	for _, c := range p.NodeCalls(n) {
+		o := p.Callee(c)
+		if o == nil {
+			continue
+		}
+		if g := p.ByObj[o]; g != nil && g.Body != nil && p.resetsOnAllPaths(g, Loc{p.CFG(g).Entry, 0}, fld, depth-1) {
+			return true
+		}
+	}
+	return false
+}
+
+// resetsOnAllPaths: every path from loc to f's normal exit executes a resetNode for fld.
+func (p *Prog) resetsOnAllPaths(f *Func, loc Loc, fld string, depth int) bool {
+	g := p.CFG(f)
+	if loc.B == g.Exit {
+		return false
+	}
+	_, escapes := g.PathAvoiding(loc, func(n ast.Node) bool { return p.resetNode(n, fld, depth) }, func(b *Block) bool { return b == g.Exit }, nil)
+	if escapes {
+		return false
+	}
+	// PathAvoiding reports no path both when every path is blocked and when the start itself is blocked
+	return true
+}
+
+// callOnAllPaths: every path from loc to f's normal exit calls a function accepted by pred,
+// directly or through a callee all of whose paths do.
+func (p *Prog) callOnAllPaths(f *Func, loc Loc, pred func(c *ast.CallExpr) bool, depth int) bool {
+	g := p.CFG(f)
+	if loc.B == g.Exit {
+		return false
+	}
+	var hit func(n ast.Node, d int) bool
+	hit = func(n ast.Node, d int) bool {
+		for _, c := range p.NodeCalls(n) {
+			if pred(c) {
+				return true
+			}
+			if d <= 0 {
+				continue
+			}
+			if o := p.Callee(c); o != nil {
+				if h := p.ByObj[o]; h != nil && h.Body != nil && p.callOnAllPaths(h, Loc{p.CFG(h).Entry, 0}, pred, d-1) {
+					return true
+				}
+			}
+		}
+		return false
+	}
+	_, escapes := g.PathAvoiding(loc, func(n ast.Node) bool { return hit(n, depth) }, func(b *Block) bool { return b == g.Exit }, nil)
+	return !escapes
+}
+
+// branchStarts: the blocks entered by the conditional edges of f on which the fact accepted by pred holds.
+func (p *Prog) branchStarts(f *Func, pred func(Fact) bool) []*Block {
+	var out []*Block
+	for _, b := range p.CFG(f).Blocks {
+		for _, e := range b.Succs {
+			if e.Cond == nil {
+				continue
+			}
+			for _, ft := range p.FactsOfCond(e.Cond, e.Val) {
+				if pred(ft) {
+					out = append(out, e.To)
+				}
+			}
+		}
+	}
+	return out
+}
